@@ -11,6 +11,7 @@ import (
 	"encoding/json"
 	"fmt"
 	"strings"
+	"time"
 
 	"github.com/yuin/goldmark"
 )
@@ -162,6 +163,24 @@ func runC08(c *Ctx) {
 	g := newDocGen(c.Rand("mut"))
 	for i := 0; i < c.Pick(4000, 80000); i++ {
 		addDoc(strings.NewReplacer("\t", " ", "\r", "").Replace(g.next()))
+	}
+	// every document over line alphabets of BlockSem.tla: for exactly these documents TLC has
+	// established the law at model level (invariant QuoteLaw of the reference block semantics), so
+	// a disagreement of the library is a disagreement with CommonMark as modelled
+	for _, b := range []bsConfig{{"small", c.Pick(3, 4), true, 0}, {"quotes", 2, true, 0}, {"html", 2, true, 0}, {"lists", c.Pick(2, 3), true, 0}} {
+		n := 0
+		r := RunTLC(TLCOpts{Module: "BlockSem", Cfg: "gen.cfg", CfgText: bsCfg(b.alpha, b.lines, false, true), Workers: 8, Timeout: 60 * time.Minute, OnJSON: func(raw []byte) {
+			var d struct {
+				Src string `json:"src"`
+			}
+			if json.Unmarshal(raw, &d) == nil && d.Src != "" {
+				n++
+				addDoc(d.Src)
+			}
+		}})
+		r.MustOK("BlockSem " + b.alpha + " (QuoteLaw at model level)")
+		ev.TLC(fmt.Sprintf("BlockSem alphabet %s, up to %d lines: QuoteLaw holds of the reference semantics; documents replayed", b.alpha, b.lines), r)
+		ev.Add("blocksem_documents", int64(n))
 	}
 	mds := map[string]goldmark.Markdown{}
 	for _, cf := range append(cfgs, specCfg) {
